@@ -109,6 +109,7 @@ pub struct HStats {
     pub seeks_in_buffer: usize,
     pub seeks_real: usize,
     pub largest_set: usize,
+    pub exact_huge_n: usize,
     pub interrupts_seen: usize,
     pub positions_checked_after_error: usize,
     /// seek targets inside / outside the last `capacity` bytes the source has delivered (a fact about
@@ -770,6 +771,9 @@ impl<'a> Runner<'a> {
                                 if avail < n {
                                     self.stats.exact_short += 1;
                                 }
+                                if n >= (1usize << 32) - 1 {
+                                    self.stats.exact_huge_n += 1;
+                                }
                                 if grew && m > 1 {
                                     self.stats.exact_grew_with_batch += 1;
                                 }
@@ -807,7 +811,7 @@ impl<'a> Runner<'a> {
                 if !self.degraded && !io && !lim {
                     if let (Cursor::At(i), Some(n)) = (self.cursor.clone(), n) {
                         // an exact read can only meet the invalid group if it needs more records than remain
-                        if i + n <= self.n() {
+                        if i.saturating_add(n) <= self.n() {
                             self.dev(
                                 "order",
                                 "lost-records-before-error",
